@@ -80,7 +80,10 @@ Definition age_entry (e : entry) : entry :=
      n_state := match n_state e with Pending _ => Pending true | Dead => Dead end; n_delay := None |}.
 
 (* ---------- object store + transaction ---------- *)
-Record bucket := { b_versioned : bool; b_rules : list rule; b_eb : bool; b_keys : list bytes }.
+(* a key's versions, newest first: version number (creation order), delete marker?, content id (decides the ETag) *)
+Record ver := { v_num : nat; v_marker : bool; v_cid : nat }.
+Record bucket := { b_versioned : bool; b_rules : list rule; b_eb : bool;
+                   b_objs : list (bytes * list ver); b_next : nat }.
 
 Record st := { s_buckets : list (bytes * bucket); s_outbox : list entry }.
 Definition st_init : st := {| s_buckets := []; s_outbox := [] |}.
@@ -93,12 +96,32 @@ Fixpoint bset (b : bytes) (v : bucket) (l : list (bytes * bucket)) : list (bytes
   | (k, v') :: l' => if bytes_eqb b k then (k, v) :: l' else (k, v') :: bset b v l'
   end.
 
-Definition with_keys (ks : list bytes) (b : bucket) : bucket :=
-  {| b_versioned := b_versioned b; b_rules := b_rules b; b_eb := b_eb b; b_keys := ks |}.
-Definition add_key (k : bytes) (b : bucket) : bucket :=
-  if mem_bytes k (b_keys b) then b else with_keys (k :: b_keys b) b.
+Fixpoint olookup (k : bytes) (l : list (bytes * list ver)) : list ver :=
+  match l with [] => [] | (k', v) :: l' => if bytes_eqb k k' then v else olookup k l' end.
+Fixpoint oset (k : bytes) (v : list ver) (l : list (bytes * list ver)) : list (bytes * list ver) :=
+  match l with
+  | [] => [(k, v)]
+  | (k', v') :: l' => if bytes_eqb k k' then (k, v) :: l' else (k', v') :: oset k v l'
+  end.
+Definition stack_of (k : bytes) (b : bucket) : list ver := olookup k (b_objs b).
+Definition with_stack (k : bytes) (st : list ver) (bump : bool) (b : bucket) : bucket :=
+  {| b_versioned := b_versioned b; b_rules := b_rules b; b_eb := b_eb b; b_objs := oset k st (b_objs b);
+     b_next := if bump then S (b_next b) else b_next b |}.
+(* the key's current object: the newest version unless that is a delete marker *)
+Definition latest_obj (k : bytes) (b : bucket) : option ver :=
+  match stack_of k b with v :: _ => if v_marker v then None else Some v | [] => None end.
+Definition present (k : bytes) (b : bucket) : bool := match latest_obj k b with Some _ => true | None => false end.
+(* a write: a new version on top in a versioning-enabled bucket, otherwise the single (null) version is replaced;
+   [cid = None]: fresh content *)
+Definition add_key_cid (k : bytes) (cid : option nat) (b : bucket) : bucket :=
+  let v := {| v_num := b_next b; v_marker := false; v_cid := match cid with Some c => c | None => b_next b end |} in
+  with_stack k (if b_versioned b then v :: stack_of k b else [v]) true b.
+Definition add_key (k : bytes) (b : bucket) : bucket := add_key_cid k None b.
+(* a delete without version id: a delete marker on top (versioning enabled), otherwise the object is removed *)
 Definition del_key (k : bytes) (b : bucket) : bucket :=
-  with_keys (filter (fun x => negb (bytes_eqb x k)) (b_keys b)) b.
+  if b_versioned b
+  then with_stack k ({| v_num := b_next b; v_marker := true; v_cid := 0 |} :: stack_of k b) true b
+  else with_stack k [] false b.
 
 Inductive mut :=
 | MPut (b k : bytes)
@@ -133,9 +156,10 @@ Definition apply_mut (m : mut) (bs : list (bytes * bucket)) : option (list (byte
   | MCopy b k b2 k2 =>
       match blookup b bs, blookup b2 bs with
       | Some bk, Some bk2 =>
-          if mem_bytes k (b_keys bk)
-          then Some (bset b2 (add_key k2 (if bytes_eqb b b2 then bk else bk2)) bs, b2, ev_copy, k2)
-          else None
+          match latest_obj k bk with
+          | Some v => Some (bset b2 (add_key_cid k2 (if bytes_eqb b b2 then Some (v_cid v) else None) (if bytes_eqb b b2 then bk else bk2)) bs, b2, ev_copy, k2)
+          | None => None
+          end
       | _, _ => None
       end
   | MDelete b k =>
@@ -145,12 +169,12 @@ Definition apply_mut (m : mut) (bs : list (bytes * bucket)) : option (list (byte
       end
   | MTagPut b k =>
       match blookup b bs with
-      | Some bk => if mem_bytes k (b_keys bk) then Some (bs, b, ev_tagput, k) else None
+      | Some bk => if present k bk then Some (bs, b, ev_tagput, k) else None
       | None => None
       end
   | MTagDel b k =>
       match blookup b bs with
-      | Some bk => if mem_bytes k (b_keys bk) then Some (bs, b, ev_tagdel, k) else None
+      | Some bk => if present k bk then Some (bs, b, ev_tagdel, k) else None
       | None => None
       end
   end.
@@ -176,6 +200,208 @@ Definition run_mut (m : mut) (savefail : nat) (commitfail : bool) (s : st) : st 
       else ({| s_buckets := bs'; s_outbox := s_outbox s ++ es |}, true, es)
   end.
 
+(* ---------- DeleteObjects (multi-object delete) through the middleware ----------
+   metadatapart/delete.go DeleteObjects decides every entry on the transaction's working copy; a refused entry
+   (Deleted=false, PreconditionFailed) does not fail the request; notification/storage.go DeleteObjects turns
+   exactly the entries with Deleted=true into ObjectRemoved events (DeleteMarkerCreated when the result entry says
+   DeleteMarker=true) *)
+Inductive vref := VNone | VIdx (i : nat) | VBogus.        (* no version id / the i-th newest version / an unknown id *)
+Inductive cond := CNone | CMatch | CStale.                (* no If-Match / the ETag of the addressed version as it was
+                                                             when the request was built / an ETag nothing has *)
+Record bent := { be_key : bytes; be_v : vref; be_c : cond }.
+Inductive bres := BRefused | BDeleted (marker_event : bool).
+
+(* references are resolved against the state before the batch (that is when the client builds the request) *)
+Inductive rref := RNone | RVer (vn : option nat).
+Record rent := { re_key : bytes; re_r : rref; re_c : cond; re_cid : option nat (* If-Match content *) }.
+
+Definition resolve (bk : bucket) (e : bent) : rent :=
+  let st := stack_of (be_key e) bk in
+  let target := match be_v e with
+                | VNone => match st with v :: _ => Some v | [] => None end
+                | VIdx i => nth_error st i
+                | VBogus => None
+                end in
+  {| re_key := be_key e;
+     re_r := match be_v e with
+             | VNone => RNone
+             | VIdx i => RVer (option_map v_num (nth_error st i))
+             | VBogus => RVer None
+             end;
+     re_c := be_c e;
+     re_cid := match be_c e, target with
+               | CMatch, Some v => if v_marker v then None else Some (v_cid v)
+               | _, _ => None
+               end |}.
+
+Definition cond_holds (e : rent) (v : ver) : bool :=
+  match re_c e with
+  | CNone => true
+  | CStale => false
+  | CMatch => negb (v_marker v) && match re_cid e with Some c => Nat.eqb c (v_cid v) | None => false end
+  end.
+Definition has_cond (e : rent) : bool := match re_c e with CNone => false | _ => true end.
+
+Fixpoint find_ver (vn : nat) (st : list ver) : option ver :=
+  match st with [] => None | v :: st' => if Nat.eqb (v_num v) vn then Some v else find_ver vn st' end.
+Definition remove_ver (vn : nat) (st : list ver) : list ver := filter (fun v => negb (Nat.eqb (v_num v) vn)) st.
+
+Definition batch_entry (bk : bucket) (e : rent) : bucket * bres :=
+  let k := re_key e in
+  match re_r e with
+  | RNone =>
+      match latest_obj k bk with
+      | Some v =>
+          if cond_holds e v then (del_key k bk, BDeleted (b_versioned bk)) else (bk, BRefused)
+      | None =>
+          if has_cond e then (bk, BRefused)
+          else if b_versioned bk then (del_key k bk, BDeleted true) else (bk, BDeleted false)
+      end
+  | RVer vn =>
+      match match vn with Some n => find_ver n (stack_of k bk) | None => None end with
+      | None => if has_cond e then (bk, BRefused) else (bk, BDeleted false)
+      | Some v =>
+          if cond_holds e v then (with_stack k (remove_ver (v_num v) (stack_of k bk)) false bk, BDeleted (v_marker v))
+          else (bk, BRefused)
+      end
+  end.
+
+Fixpoint batch_entries (bk : bucket) (es : list rent) : bucket * list bres :=
+  match es with
+  | [] => (bk, [])
+  | e :: rest => let (bk1, r) := batch_entry bk e in let (bk2, rs) := batch_entries bk1 rest in (bk2, r :: rs)
+  end.
+
+(* the outbox rows of one result entry *)
+Definition rows_of_result (bk : bucket) (b : bytes) (k : bytes) (r : bres) : list entry :=
+  match r with
+  | BRefused => []
+  | BDeleted m => entries_for bk b (if m then ev_marker else ev_del) k
+  end.
+Fixpoint batch_rows (bk : bucket) (b : bytes) (ks : list bytes) (rs : list bres) : list entry :=
+  match ks, rs with
+  | k :: ks', r :: rs' => rows_of_result bk b k r ++ batch_rows bk b ks' rs'
+  | _, _ => []
+  end.
+
+(* runWithNotifications around DeleteObjects; faults as in [run_mut] *)
+Definition run_batch (b : bytes) (ents : list bent) (savefail : nat) (commitfail : bool) (s : st)
+  : st * bool * list bres * list entry :=
+  match blookup b (s_buckets s) with
+  | None => (s, false, [], [])
+  | Some bk =>
+      let (bk', rs) := batch_entries bk (map (resolve bk) ents) in
+      let es := batch_rows bk' b (map be_key ents) rs in
+      if ((0 <? savefail) && (savefail <=? length es)) || commitfail then (s, false, [], [])
+      else ({| s_buckets := bset b bk' (s_buckets s); s_outbox := s_outbox s ++ es |}, true, rs, es)
+  end.
+
+(* ---------- the dispatcher step by step: claims, leases, several owners, crashes ----------
+   A row of the outbox table = entry + identity + claim (owner, lease expired?).  An owner = one
+   StorageMiddleware instance (its own claimOwner string and DispatcherConfig.MaxAttempts); [o_held] is the entry
+   object returned by its last claim (with the attempts value the claim persisted). *)
+Fixpoint upd_nth {A} (i : nat) (x : A) (l : list A) : list A :=
+  match l, i with
+  | [], _ => []
+  | _ :: l', O => x :: l'
+  | y :: l', S i' => y :: upd_nth i' x l'
+  end.
+
+Record row := { w_e : entry; w_id : nat; w_claim : option (nat * bool) }.
+Record owner := { o_id : nat; o_max : Z; o_held : option (nat * Z * entry) }.
+
+Definition claimable (r : row) : bool :=
+  match n_state (w_e r) with
+  | Pending true => match w_claim r with None => true | Some (_, expired) => expired end
+  | _ => false
+  end.
+
+Definition with_entry (e : entry) (c : option (nat * bool)) (r : row) : row := {| w_e := e; w_id := w_id r; w_claim := c |}.
+Definition set_attempts (a : Z) (e : entry) : entry :=
+  {| n_dest := n_dest e; n_event := n_event e; n_key := n_key e; n_attempts := a; n_state := n_state e; n_delay := None |}.
+
+(* ClaimFirst: the first claimable row in (next_attempt_at, id) order = table order *)
+Fixpoint claim_first (oid : nat) (rs : list row) : list row * option (nat * Z * entry) :=
+  match rs with
+  | [] => ([], None)
+  | r :: rest =>
+      if claimable r then
+        let a := (n_attempts (w_e r) + 1)%Z in
+        (with_entry (set_attempts a (w_e r)) (Some (oid, false)) r :: rest, Some (w_id r, a, w_e r))
+      else let (rest', res) := claim_first oid rest in (r :: rest', res)
+  end.
+
+(* what dispatchEntry writes for the held entry: [Some None] = delete, [Some (Some e)] = new entry state *)
+Definition handle_write (c : dcfg) (mx : Z) (fails : bytes -> Z -> bool) (e : entry) (a : Z) : option entry :=
+  if fails (n_dest e) a then
+    if (0 <? mx)%Z && (mx <=? a)%Z
+    then Some {| n_dest := n_dest e; n_event := n_event e; n_key := n_key e; n_attempts := n_attempts e;
+                 n_state := Dead; n_delay := None |}
+    else Some {| n_dest := n_dest e; n_event := n_event e; n_key := n_key e; n_attempts := n_attempts e;
+                 n_state := Pending false; n_delay := Some (delay c a) |}
+  else None.
+
+(* the UPDATE/DELETE ... WHERE id = ? AND claim_owner = ? of delete / release / dead-letter *)
+Fixpoint apply_write (oid id : nat) (upd : option entry -> option entry) (rs : list row) : list row :=
+  match rs with
+  | [] => []
+  | r :: rest =>
+      if Nat.eqb (w_id r) id then
+        match w_claim r with
+        | Some (o, _) =>
+            if Nat.eqb o oid then
+              match upd (Some (w_e r)) with
+              | Some e' => with_entry e' None r :: rest
+              | None => rest
+              end
+            else r :: rest
+        | None => r :: rest
+        end
+      else r :: apply_write oid id upd rest
+  end.
+
+Fixpoint find_row (id : nat) (rs : list row) : option row :=
+  match rs with [] => None | r :: rest => if Nat.eqb (w_id r) id then Some r else find_row id rest end.
+
+(* dispatchEntry of a held claim: the publish always happens (even if the row was taken over or is gone: that is
+   the at-least-once duplicate); the database write only takes effect while the row still carries this owner's
+   claim, and not at all when [wfail] (the write fails / the process dies before it) *)
+Definition handle_held (c : dcfg) (fails : bytes -> Z -> bool) (o : owner) (wfail : bool) (rs : list row)
+  : list row * option pubrec :=
+  match o_held o with
+  | None => (rs, None)
+  | Some (id, a, e) =>
+      let rec := {| p_dest := n_dest e; p_event := n_event e; p_key := n_key e; p_attempt := a;
+                    p_ok := negb (fails (n_dest e) a) |} in
+      if wfail then (rs, Some rec)
+      else (apply_write (o_id o) id
+              (fun cur => match cur with
+                          | Some ce => handle_write c (o_max o) fails ce a
+                          | None => None
+                          end) rs, Some rec)
+  end.
+
+(* dispatchAvailable of one owner: claim + dispatch until nothing is claimable; a row it releases is not due again *)
+Fixpoint dispatch_all (fuel : nat) (c : dcfg) (fails : bytes -> Z -> bool) (o : owner) (rs : list row)
+  : list row * list pubrec :=
+  match fuel with
+  | O => (rs, [])
+  | S f =>
+      match claim_first (o_id o) rs with
+      | (_, None) => (rs, [])
+      | (rs1, Some held) =>
+          let (rs2, p) := handle_held c fails {| o_id := o_id o; o_max := o_max o; o_held := Some held |} false rs1 in
+          let (rs3, ps) := dispatch_all f c fails o rs2 in
+          (rs3, match p with Some r => r :: ps | None => ps end)
+      end
+  end.
+
+Definition expire_row (r : row) : row :=
+  {| w_e := w_e r; w_id := w_id r; w_claim := match w_claim r with Some (o, _) => Some (o, true) | None => None end |}.
+Definition age_row (r : row) : row := {| w_e := age_entry (w_e r); w_id := w_id r; w_claim := w_claim r |}.
+Definition clear_delay (r : row) : row :=
+  {| w_e := set_attempts (n_attempts (w_e r)) (w_e r); w_id := w_id r; w_claim := w_claim r |}.
+
 (* ---------- line protocol ----------
    R <events> <filters> <name> <key>          RuleMatches; events = tok_list, filters = name=value pairs as tok_list
                                               of alternating name,value
@@ -184,7 +410,10 @@ Definition run_mut (m : mut) (savefail : nat) (commitfail : bool) (s : st) : st 
         ops separated by ';', fields by ':' (written with ',' below):
         K,b  V,b  N,b,eb,<rule>|<rule>..  (rule = dest/events/filters with ':'-free hex lists, '~' = no rules)
         P,b,k,j  C,b,k,b2,k2,j  M,b,k,j  D,b,k,j  T,b,k,j  U,b,k,j   (j = index of the failing Save, 0 = none)
-        X  (one dispatchAvailable)   A  (all pending rows become due)
+        X  (one dispatchAvailable of owner 0)   A  (all pending rows become due)
+        G,b,j,<key~vref~cond>|...   DeleteObjects; vref = - | v<i> (i-th newest version) | x (unknown id); cond = n | m | s
+        Y,slot (claim)  E,slot,<n|f> (dispatchEntry of the held claim; f = its database write fails)
+        L (all leases run out)  Z,slot,maxatt (restart of that owner with another MaxAttempts)
    outputs: see show_* below *)
 
 (* lexicographic order on byte strings and insertion sort, for canonical listings *)
@@ -212,12 +441,47 @@ Definition show_row (e : entry) : bytes :=
   match n_delay e with Some d => B"|" ++ show_Z (d / 1000000) | None => [] end.
 Definition show_list (l : list bytes) : bytes := B"[" ++ join B"," (sort_bytes l) ++ B"]".
 
+Definition show_claim (c : option (nat * bool)) : bytes :=
+  match c with
+  | None => []
+  | Some (o, expired) => B"@" ++ show_nat o ++ (if expired then B"x" else [])
+  end.
+Definition show_wrow (r : row) : bytes := show_row (w_e r) ++ show_claim (w_claim r).
+Definition show_bres (r : bres) : bytes :=
+  match r with BRefused => B"r" | BDeleted true => B"D" | BDeleted false => B"d" end.
+
 Inductive hop :=
 | HCreate (b : bytes) | HVersion (b : bytes) | HConfig (b : bytes) (eb : bool) (rules : list rule)
-| HMut (m : mut) (j : nat) | HDispatch | HAge.
+| HMut (m : mut) (j : nat) | HBatch (b : bytes) (ents : list bent) (j : nat)
+| HDispatch | HAge
+| HExpire                      (* every claim lease runs out *)
+| HClaim (slot : nat)          (* the owner in that slot claims one entry (and keeps it in memory) *)
+| HHandle (slot : nat) (wfail : bool)   (* ... and later runs dispatchEntry on it; wfail: its database write fails *)
+| HRestart (slot : nat) (maxatt : Z).   (* the process in that slot is replaced: new claim owner, new MaxAttempts *)
 
-Definition key_present (b k : bytes) (s : st) : bool :=
-  match blookup b (s_buckets s) with Some bk => mem_bytes k (b_keys bk) | None => false end.
+Record hst := { h_buckets : list (bytes * bucket); h_rows : list row; h_nextid : nat;
+                h_owners : list owner; h_nextoid : nat }.
+
+Definition hst_init (c : dcfg) : hst :=
+  {| h_buckets := []; h_rows := []; h_nextid := 0;
+     h_owners := map (fun i => {| o_id := i; o_max := d_maxatt c; o_held := None |}) [0; 1; 2]; h_nextoid := 3 |}.
+
+Fixpoint number_rows (n : nat) (es : list entry) : list row :=
+  match es with [] => [] | e :: es' => {| w_e := e; w_id := n; w_claim := None |} :: number_rows (S n) es' end.
+
+Definition with_rows (rs : list row) (s : hst) : hst :=
+  {| h_buckets := h_buckets s; h_rows := rs; h_nextid := h_nextid s; h_owners := h_owners s; h_nextoid := h_nextoid s |}.
+Definition with_buckets (bs : list (bytes * bucket)) (s : hst) : hst :=
+  {| h_buckets := bs; h_rows := h_rows s; h_nextid := h_nextid s; h_owners := h_owners s; h_nextoid := h_nextoid s |}.
+Definition add_rows (es : list entry) (s : hst) : hst :=
+  {| h_buckets := h_buckets s; h_rows := h_rows s ++ number_rows (h_nextid s) es; h_nextid := h_nextid s + length es;
+     h_owners := h_owners s; h_nextoid := h_nextoid s |}.
+Definition set_owner (slot : nat) (o : owner) (s : hst) : hst :=
+  {| h_buckets := h_buckets s; h_rows := h_rows s; h_nextid := h_nextid s; h_owners := upd_nth slot o (h_owners s);
+     h_nextoid := h_nextoid s |}.
+
+Definition key_present (b k : bytes) (s : hst) : bool :=
+  match blookup b (h_buckets s) with Some bk => present k bk | None => false end.
 
 Definition mut_target (m : mut) : bytes * bytes :=
   match m with
@@ -225,38 +489,78 @@ Definition mut_target (m : mut) : bytes * bytes :=
   | MCopy _ _ b2 k2 => (b2, k2)
   end.
 
-Definition hstep (c : dcfg) (fails : bytes -> Z -> bool) (o : hop) (s : st) : st * bytes :=
+Definition new_bucket : bucket := {| b_versioned := false; b_rules := []; b_eb := false; b_objs := []; b_next := 1 |}.
+
+Definition hstep (c : dcfg) (fails : bytes -> Z -> bool) (o : hop) (s : hst) : hst * bytes :=
   match o with
   | HCreate b =>
-      match blookup b (s_buckets s) with
+      match blookup b (h_buckets s) with
       | Some _ => (s, B"err")
-      | None => ({| s_buckets := bset b {| b_versioned := false; b_rules := []; b_eb := false; b_keys := [] |} (s_buckets s);
-                    s_outbox := s_outbox s |}, B"ok")
+      | None => (with_buckets (bset b new_bucket (h_buckets s)) s, B"ok")
       end
   | HVersion b =>
-      match blookup b (s_buckets s) with
+      match blookup b (h_buckets s) with
       | None => (s, B"err")
-      | Some bk => ({| s_buckets := bset b {| b_versioned := true; b_rules := b_rules bk; b_eb := b_eb bk; b_keys := b_keys bk |} (s_buckets s);
-                       s_outbox := s_outbox s |}, B"ok")
+      | Some bk => (with_buckets (bset b {| b_versioned := true; b_rules := b_rules bk; b_eb := b_eb bk; b_objs := b_objs bk;
+                                            b_next := b_next bk |} (h_buckets s)) s, B"ok")
       end
   | HConfig b eb rules =>
-      match blookup b (s_buckets s) with
+      match blookup b (h_buckets s) with
       | None => (s, B"err")
-      | Some bk => ({| s_buckets := bset b {| b_versioned := b_versioned bk; b_rules := rules; b_eb := eb; b_keys := b_keys bk |} (s_buckets s);
-                       s_outbox := s_outbox s |}, B"ok")
+      | Some bk => (with_buckets (bset b {| b_versioned := b_versioned bk; b_rules := rules; b_eb := eb; b_objs := b_objs bk;
+                                            b_next := b_next bk |} (h_buckets s)) s, B"ok")
       end
   | HMut m j =>
-      let '(s', ok, es) := run_mut m j false s in
+      let '(s', ok, es) := run_mut m j false {| s_buckets := h_buckets s; s_outbox := [] |} in
+      let s2 := add_rows es (with_buckets (s_buckets s') s) in
       let (tb, tk) := mut_target m in
-      (s', (if ok then B"ok" else B"err") ++ show_list (map show_new_entry es) ++ (if key_present tb tk s' then B"+" else B"-"))
+      (s2, (if ok then B"ok" else B"err") ++ show_list (map show_new_entry es) ++ (if key_present tb tk s2 then B"+" else B"-"))
+  | HBatch b ents j =>
+      let '(s', ok, rs, es) := run_batch b ents j false {| s_buckets := h_buckets s; s_outbox := [] |} in
+      let s2 := add_rows es (with_buckets (s_buckets s') s) in
+      (s2, (if ok then B"ok" else B"err") ++ B"(" ++ concat (map show_bres rs) ++ B")" ++ show_list (map show_new_entry es))
   | HDispatch =>
-      let (ps, es) := dispatch_round c fails (s_outbox s) in
-      ({| s_buckets := s_buckets s; s_outbox := es |},
-       B"pub" ++ show_list (map show_pub ps) ++ B"rows" ++ show_list (map show_row es))
-  | HAge => ({| s_buckets := s_buckets s; s_outbox := map age_entry (s_outbox s) |}, B"ok")
+      match nth_error (h_owners s) 0 with
+      | None => (s, B"bad")
+      | Some ow =>
+          let rs0 := map clear_delay (h_rows s) in
+          let (rs, ps) := dispatch_all (S (length rs0)) c fails ow rs0 in
+          (with_rows rs s, B"pub" ++ show_list (map show_pub ps) ++ B"rows" ++ show_list (map show_wrow rs))
+      end
+  | HAge => (with_rows (map age_row (h_rows s)) s, B"ok")
+  | HExpire => (with_rows (map expire_row (h_rows s)) s, B"ok")
+  | HClaim slot =>
+      match nth_error (h_owners s) slot with
+      | None => (s, B"bad")
+      | Some ow =>
+          let (rs, res) := claim_first (o_id ow) (h_rows s) in
+          match res with
+          | None => (set_owner slot {| o_id := o_id ow; o_max := o_max ow; o_held := None |} s, B"none")
+          | Some (id, a, e) =>
+              (set_owner slot {| o_id := o_id ow; o_max := o_max ow; o_held := Some (id, a, e) |} (with_rows rs s),
+               B"c" ++ show_new_entry e ++ B"|" ++ show_Z a)
+          end
+      end
+  | HHandle slot wfail =>
+      match nth_error (h_owners s) slot with
+      | None => (s, B"bad")
+      | Some ow =>
+          let (rs, p) := handle_held c fails ow wfail (map clear_delay (h_rows s)) in
+          (set_owner slot {| o_id := o_id ow; o_max := o_max ow; o_held := None |} (with_rows rs s),
+           B"pub" ++ show_list (map show_pub (match p with Some r => [r] | None => [] end)) ++
+           B"rows" ++ show_list (map show_wrow rs))
+      end
+  | HRestart slot m =>
+      match nth_error (h_owners s) slot with
+      | None => (s, B"bad")
+      | Some _ =>
+          let s1 := set_owner slot {| o_id := h_nextoid s; o_max := m; o_held := None |} s in
+          ({| h_buckets := h_buckets s1; h_rows := h_rows s1; h_nextid := h_nextid s1; h_owners := h_owners s1;
+              h_nextoid := S (h_nextoid s) |}, B"ok")
+      end
   end.
 
-Fixpoint hrun (c : dcfg) (fails : bytes -> Z -> bool) (ops : list hop) (s : st) : list bytes :=
+Fixpoint hrun (c : dcfg) (fails : bytes -> Z -> bool) (ops : list hop) (s : hst) : list bytes :=
   match ops with
   | [] => []
   | o :: rest => let (s', out) := hstep c fails o s in out :: hrun c fails rest s'
@@ -281,11 +585,49 @@ Definition parse_rule (t : bytes) : option rule :=
 Definition parse_rules (t : bytes) : option (list rule) :=
   if bytes_eqb t B"~" then Some [] else mapM parse_rule (split_on "|"%byte t).
 
+Definition parse_vref (t : bytes) : option vref :=
+  match t with
+  | c :: rest =>
+      if bytes_eqb t B"-" then Some VNone
+      else if bytes_eqb t B"x" then Some VBogus
+      else if beqb c "v"%byte then option_map VIdx (parse_nat rest)
+      else None
+  | [] => None
+  end.
+Definition parse_cond (t : bytes) : option cond :=
+  if bytes_eqb t B"n" then Some CNone else if bytes_eqb t B"m" then Some CMatch
+  else if bytes_eqb t B"s" then Some CStale else None.
+Definition parse_bent (t : bytes) : option bent :=
+  match split_on "~"%byte t with
+  | [k; v; c] => match parse_vref v, parse_cond c with
+                 | Some v, Some c => Some {| be_key := k; be_v := v; be_c := c |}
+                 | _, _ => None
+                 end
+  | _ => None
+  end.
+
 Definition parse_hop (t : bytes) : option hop :=
   match split_on ":"%byte t with
-  | [c] => if bytes_eqb c B"X" then Some HDispatch else if bytes_eqb c B"A" then Some HAge else None
-  | [c; b] => if bytes_eqb c B"K" then Some (HCreate b) else if bytes_eqb c B"V" then Some (HVersion b) else None
+  | [c] => if bytes_eqb c B"X" then Some HDispatch else if bytes_eqb c B"A" then Some HAge
+           else if bytes_eqb c B"L" then Some HExpire else None
+  | [c; b] => if bytes_eqb c B"K" then Some (HCreate b) else if bytes_eqb c B"V" then Some (HVersion b)
+              else if bytes_eqb c B"Y" then option_map HClaim (parse_nat b) else None
+  | [c; a1; a2] =>
+      if bytes_eqb c B"E" then
+        match parse_nat a1 with
+        | Some sl => if bytes_eqb a2 B"n" then Some (HHandle sl false) else if bytes_eqb a2 B"f" then Some (HHandle sl true) else None
+        | None => None
+        end
+      else if bytes_eqb c B"Z" then
+        match parse_nat a1, parse_Z a2 with Some sl, Some m => Some (HRestart sl m) | _, _ => None end
+      else None
   | [c; b; k; j] =>
+      if bytes_eqb c B"G" then
+        match parse_nat k, mapM parse_bent (split_on "|"%byte j) with
+        | Some jn, Some ents => Some (HBatch b ents jn)
+        | _, _ => None
+        end
+      else
       match parse_nat j with
       | None => (if bytes_eqb c B"N" then
                    match parse_bool k, parse_rules j with Some eb, Some rs => Some (HConfig b eb rs) | _, _ => None end
@@ -332,7 +674,7 @@ Definition run_line (l : bytes) : bytes :=
         do ms <- mapM parse_mask (split_on ","%byte masks);
         do ops <- mapM parse_hop (split_on ";"%byte ops);
         let cfg := with_defaults {| d_maxatt := ma; d_min := (mn * 1000000)%Z; d_max := (mx * 1000000)%Z |} in
-        join B";" (hrun cfg (mask_fails ms) ops st_init)
+        join B";" (hrun cfg (mask_fails ms) ops (hst_init cfg))
       else parse_error
   | _ => parse_error
   end.
